@@ -165,7 +165,14 @@ def call_external(h: Any, name: str, args: List[AV], kwargs: Dict[str, AV], node
             if short == "reversed":
                 return i.new_list(list(reversed(payload)))
             try:
-                vals = sorted(payload, key=lambda x: _plain(x))
+                keyf = kwargs.get("key")
+                rev = kwargs.get("reverse")
+                rv = bool(rev.value) if isinstance(rev, Const) else False
+                if keyf is not None:
+                    keys = [_plain(i.call(keyf, [x], {}, node)) for x in payload]
+                    order = sorted(range(len(payload)), key=lambda k: keys[k], reverse=rv)
+                    return i.new_list([payload[k] for k in order])
+                vals = sorted(payload, key=lambda x: _plain(x), reverse=rv)
                 return i.new_list(vals)
             except (ValueError, TypeError):
                 raise h.unsupported(node, "sorted() on symbolic items") from None
